@@ -43,10 +43,14 @@ def run(chk):
     key = flow.simplify_term(T.operand(st["args"][0], sb, "t"))
     msg = flow.simplify_term(T.operand(st["args"][1], sb, "t"))
     # R1
-    ok = msg[0] == "upd" and (names.is_(msg[1], "Extend::extend") or names.is_(msg[1], "Vec::extend_from_slice") or names.is_(msg[1], "Vec::extend")) and is_call(msg[2], "AuthenticatorData::to_vec") \
-        and len(msg[3]) == 1 and msg[3][0] == ("field", ("upvar", 1), "client_data_hash")
-    chk.ob("R1 signature target", "R1|get_assertion|authData-then-hash", ok, where(ga, sb), "signed message = %s" % flow.term_str(msg)[:260])
-    A = msg[2][2][0] if ok else None
+    # the signed bytes as an ordered segment list (to_vec + extend, concat, chain … alike): authenticator data, then the hash
+    from . import normal as _nm
+    _Nm = _nm.Normalizer(p, summary.Summaries(p))
+    segs = flow.byte_segments(_Nm.norm(msg))
+    ok = len(segs) == 2 and is_call(segs[0], "AuthenticatorData::to_vec") and len(segs[0][2]) == 1 and segs[1] == ("field", ("upvar", 1), "client_data_hash")
+    chk.ob("R1 signature target", "R1|get_assertion|authData-then-hash", ok, where(ga, sb), "signed message = %s" % [flow.term_str(x)[:120] for x in segs])
+    A = segs[0][2][0] if ok else None
+    r["auth_data"] = _Nm.norm(r["auth_data"])
     chk.ob("R1 signature target", "R1|get_assertion|same-authData-returned", A is not None and r["auth_data"] == A, where(ga, rb), "Response.auth_data %s the signed value" % ("is" if A is not None and r["auth_data"] == A else "is NOT"))
     sig = r["signature"]
     chk.ob("R1 signature target", "R1|get_assertion|signature-returned", find(sig, lambda x: is_call(x, "SignerMut::sign") or is_call(x, "Signer::sign")) is not None and has(sig, lambda x: isinstance(x, tuple) and len(x) == 4 and x[0] == "call" and x[1].endswith("to_der")), where(ga, rb),
